@@ -659,6 +659,21 @@ func (o *procOracle) sotwReq(f []string, line string) {
 	default:
 		o.checkAnswer(e.clause, []pcall{{t, e.asked}}, line)
 	}
+	// the last sentence of the property, keyed on the history only: the request echoes the nonce of the last response
+	// of this type that reached the client (kind `cur`: what a conformant client sends; empty when none did), so it is
+	// the client's current word; it has been processed and is not a rejection: the record must be what it asks for
+	if f[3] == "cur" && f[4] == "-" {
+		w := o.pr.p.proxy.WatchedResources[typeURL[t]]
+		ok := false
+		if len(names) == 0 && namedType(t) {
+			ok = w == nil
+		} else {
+			ok = w != nil && sameNames(names, w.ResourceNames)
+		}
+		if !ok {
+			o.fail("record-equals-the-last-request-of-a-conformant-client", line)
+		}
+	}
 	o.after(line)
 }
 
